@@ -40,7 +40,7 @@ def m_platforms(table):
 
 def m_coverage(table, platforms=None):
     """Returns a set of acceptable values (Fractions or NAN)."""
-    if not platforms:
+    if platforms is None:
         platforms = m_platforms(table)
     total = sum(table.values())
     if total == 0 or len(platforms) == 0:
@@ -50,7 +50,7 @@ def m_coverage(table, platforms=None):
 
 
 def m_avg_coverage(table, platforms=None):
-    if not platforms:
+    if platforms is None:
         platforms = m_platforms(table)
     total = sum(table.values())
     if total == 0 or len(platforms) == 0:
@@ -125,6 +125,9 @@ def call(fn, *a):
         return ("exc", f"{type(e).__name__}: {e}")
 
 
+RANGE_MAX = {"coverage": 100, "average_coverage": 100, "divergence": 1, "distance": 1}
+
+
 def check_table(table, res: Result, subsets=True, metamorphic=None):
     """table: dict frozenset(str)->int.  Returns list of violations."""
     from codebasin import report
@@ -140,6 +143,9 @@ def check_table(table, res: Result, subsets=True, metamorphic=None):
         elif not agrees(val, acceptable):
             und = "expected-nan" if acceptable == {NAN} else ("got-nan" if isinstance(val, float) and math.isnan(val) else "value")
             vs.append(make_violation(f"{what}:{und}:{shape(table)}", {"table": tj, "call": what, "args": args}, show(acceptable), repr(val)))
+        elif isinstance(val, (int, float)) and not math.isnan(val) and not (0 <= val <= RANGE_MAX[what]):
+            # the documented range holds exactly, not up to rounding: 1.0000000000000002 is not a distance
+            vs.append(make_violation(f"{what}:outside-documented-range", {"table": tj, "call": what, "args": args}, f"[0, {RANGE_MAX[what]}]", repr(val)))
 
     judge("coverage", call(report.coverage, dict(table)), m_coverage(table))
     judge("average_coverage", call(report.average_coverage, dict(table)), m_avg_coverage(table))
@@ -155,9 +161,9 @@ def check_table(table, res: Result, subsets=True, metamorphic=None):
                     if not ((math.isnan(x) and math.isnan(y)) or x == y):
                         vs.append(make_violation(f"distance:asymmetric:{shape(table)}", {"table": tj, "args": [a, b]}, "d(a,b)==d(b,a)", [x, y]))
     if subsets:
-        for r in range(1, len(ps) + 1):
+        for r in range(0, len(ps) + 1):
             for sub in itertools.combinations(ps, r):
-                if len(ps) > 4 and r not in (1, 2, len(ps)):
+                if len(ps) > 4 and r not in (0, 1, 2, len(ps)):
                     continue
                 for conv in (set, list):
                     judge("coverage", call(report.coverage, dict(table), conv(sub)), m_coverage(table, set(sub)), list(sub))
@@ -174,20 +180,27 @@ def check_table(table, res: Result, subsets=True, metamorphic=None):
     # metamorphic relations on the implementation itself
     if metamorphic:
         ren, order, factor = metamorphic
-        base = {n: call(f, dict(table)) for n, f in (("coverage", report.coverage), ("average_coverage", report.average_coverage), ("divergence", report.divergence))}
+        fns = [("coverage", report.coverage, None), ("average_coverage", report.average_coverage, None), ("divergence", report.divergence, None)]
+        if len(ps) >= 2:
+            fns.append(("distance", report.distance, (ps[0], ps[-1])))
+        base = {n: call(f, dict(table), *(extra or ())) for n, f, extra in fns}
         variants = {
             "renamed": {frozenset(ren[p] for p in k): c for k, c in table.items()},
             "reordered": {k: table[k] for k in order},
             "scaled": {k: c * factor for k, c in table.items()},
         }
         for vn, t2 in variants.items():
-            for n, f in (("coverage", report.coverage), ("average_coverage", report.average_coverage), ("divergence", report.divergence)):
-                g = call(f, dict(t2))
+            for n, f, extra in fns:
+                if extra and vn == "renamed":
+                    extra = tuple(ren[p] for p in extra)
+                g = call(f, dict(t2), *(extra or ()))
                 b = base[n]
                 if b[0] != "ok" or g[0] != "ok":
                     continue  # exceptions are judged above
                 x, y = b[1], g[1]
-                same = (math.isnan(x) and math.isnan(y)) or abs(x - y) <= 1e-9 * max(1.0, abs(x))
+                # renaming and reordering must not change a single bit ("unchanged"); a common factor
+                # may move the last bit where counts exceed 2^53
+                same = (math.isnan(x) and math.isnan(y)) or (x == y if vn != "scaled" else abs(x - y) <= 1e-9 * max(1.0, abs(x)))
                 if not same:
                     vs.append(make_violation(f"{n}:not-invariant:{vn}", {"table": tj, "variant": table_json(t2)}, x, y))
     return vs
@@ -266,55 +279,55 @@ def _rand_shard(seed, n, known):
 # ---------------------------------------------------------------- printed reports
 
 
-def _printed_shard(seed, n):
+def _fmt(acc):
+    a = next(iter(acc))
+    return "nan" if a == NAN else f"{float(a):.2f}"
+
+
+def _near(printed, acc):
+    a = next(iter(acc))
+    if a == NAN:
+        return printed == "nan"
+    try:
+        return abs(float(printed) - float(a)) <= 0.005 + 1e-9
+    except ValueError:
+        return False
+
+
+def check_printed(t, res):
     """The metric lines of report.summary and the matrix of report.clustering
-    must be the exact values rounded to two decimals."""
-    core.setup_import_path()
+    must be the exact values rounded to two decimals; neither report may raise
+    on any table (empty tables, tables without platforms or without lines
+    print NaN / skip the clustering)."""
     import re
-    from hypothesis import strategies as st
 
     from codebasin import report
 
-    res = Result()
-
-    small = st.dictionaries(
-        st.frozensets(st.sampled_from(["p1", "p2", "p3", "p4"]), max_size=4),
-        st.integers(1, 999), min_size=1, max_size=10,
-    )
-
-    def fmt(acc):
-        a = next(iter(acc))
-        return "nan" if a == NAN else f"{float(a):.2f}"
-
-    def near(printed, acc):
-        a = next(iter(acc))
-        if a == NAN:
-            return printed == "nan"
-        try:
-            return abs(float(printed) - float(a)) <= 0.005 + 1e-9
-        except ValueError:
-            return False
-
-    def check(t, res):
-        vs = []
-        buf = io.StringIO()
+    vs = []
+    buf = io.StringIO()
+    try:
         report.summary(dict(t), stream=buf)
-        text = buf.getvalue()
-        for label, acc in (("Code Divergence", m_divergence(t)), ("Coverage (%)", m_coverage(t)), ("Avg. Coverage (%)", m_avg_coverage(t))):
-            m = re.search(re.escape(label) + r": (\S+)", text)
-            if not m or not near(m.group(1), acc):
-                vs.append(make_violation(f"summary-line:{label}", {"table": table_json(t)}, fmt(acc), m.group(1) if m else None))
-        ps = sorted(m_platforms(t))
-        nt = len(ps) >= 3
-        if len(ps) >= 2 and all(NAN not in m_distance(t, a, b) for a in ps for b in ps):
-            buf = io.StringIO()
-            with core.Scratch("c07") as d:
-                try:
-                    report.clustering(os.path.join(d, "dendrogram.png"), dict(t), stream=buf)
-                except Exception as e:
-                    # all pairwise distances are defined here, so the report has no excuse
-                    vs.append(make_violation(f"clustering:exception:{type(e).__name__}", {"table": table_json(t)}, "distance matrix printed", f"{type(e).__name__}: {e}"))
-                    return vs
+    except Exception as e:
+        return [make_violation(f"summary:exception:{type(e).__name__}", {"table": table_json(t), "printed": True}, "summary printed", f"{type(e).__name__}: {e}")]
+    text = buf.getvalue()
+    for label, acc in (("Code Divergence", m_divergence(t)), ("Coverage (%)", m_coverage(t)), ("Avg. Coverage (%)", m_avg_coverage(t))):
+        m = re.search(re.escape(label) + r": (\S+)", text)
+        ok = m is not None and any(_near(m.group(1), {a}) for a in acc)
+        if not ok:
+            vs.append(make_violation(f"summary-line:{label}", {"table": table_json(t), "printed": True}, _fmt(acc), m.group(1) if m else None))
+    ps = sorted(m_platforms(t))
+    nt = len(ps) >= 3
+    defined = all(NAN not in m_distance(t, a, b) for a in ps for b in ps)
+    if len(ps) < 2 or defined:
+        buf = io.StringIO()
+        with core.Scratch("c07") as d:
+            try:
+                report.clustering(os.path.join(d, "dendrogram.png"), dict(t), stream=buf)
+            except Exception as e:
+                # all pairwise distances are defined here (or there is nothing to cluster), so the report has no excuse
+                vs.append(make_violation(f"clustering:exception:{type(e).__name__}:np={min(len(ps), 2)}", {"table": table_json(t), "printed": True}, "distance matrix printed, or the report skipped", f"{type(e).__name__}: {e}"))
+                return vs
+        if len(ps) >= 2:
             rows = [ln for ln in buf.getvalue().splitlines() if ln.startswith("│")]
             got = {}
             for ln in rows[1:]:
@@ -324,13 +337,25 @@ def _printed_shard(seed, n):
                 for j, b in enumerate(ps):
                     exp = m_distance(t, a, b)
                     pr = got.get(a, [None] * len(ps))[j] if a in got else None
-                    if pr is None or not near(pr, exp):
-                        vs.append(make_violation("clustering-matrix", {"table": table_json(t), "pair": [a, b]}, fmt(exp), pr))
+                    if pr is None or not _near(pr, exp):
+                        vs.append(make_violation("clustering-matrix", {"table": table_json(t), "pair": [a, b], "printed": True}, _fmt(exp), pr))
             res.labels["printed:clustering"] += 1
-        res.case(key=["printed", table_json(t)], nontrivial=nt, sample=None, labels=["printed:summary"])
-        return vs
+        else:
+            res.labels["printed:clustering-skipped-for-fewer-than-two-platforms"] += 1
+    res.case(key=["printed", table_json(t)], nontrivial=nt, sample=None, labels=["printed:summary"])
+    return vs
 
-    core.hyp_search(small, check, n, seed, res)
+
+def _printed_shard(seed, n):
+    core.setup_import_path()
+    from hypothesis import strategies as st
+
+    res = Result()
+    small = st.dictionaries(
+        st.frozensets(st.sampled_from(["p1", "p2", "p3", "p4"]), max_size=4),
+        st.one_of(st.integers(1, 999), st.integers(0, 3)), min_size=0, max_size=10,
+    )
+    core.hyp_search(small, check_printed, n, seed, res)
     return res
 
 
@@ -361,4 +386,11 @@ def replay(case):
     core.setup_import_path()
     t = {frozenset(k): c for k, c in case["table"]}
     res = Result()
-    return check_table(t, res, subsets=True)
+    if case.get("printed"):
+        return check_printed(t, res)
+    meta = None
+    if case.get("variant") is not None:
+        # not-invariant findings: replay every row order and a renaming that reverses the names
+        ps = sorted(m_platforms(t))
+        meta = (dict(zip(ps, [f"r{i}" for i in range(len(ps))][::-1])), list(t.keys())[::-1], 3)
+    return check_table(t, res, subsets=True, metamorphic=meta)
